@@ -29,3 +29,21 @@ end Frugal.Reference
 '''
 open(os.path.join(V, "lean/Frugal/Reference.lean"), "w").write(out)
 print("wrote Reference.lean")
+
+import re as _re
+sk = dict(_re.findall(r'  (\w+Skeleton) := "([0-9a-f]+)"', src))
+SK = """/-
+  Skeleton.lean -- fingerprints of the control structure (guards, switches, loops, returns, call
+  sequence) of the Go functions that the hand-written parts of the model were written from and
+  validated against, on the unchanged tree; committed (tools/mkreference.py).  Props/Instances.lean
+  compares them with the regenerated ones: an edit that adds, drops or reorders a check in one of
+  those functions fails the obligation whatever the correspondence run happens to sample.
+-/
+namespace Frugal.Skeleton
+def decoder : String := "%s"
+def encoder : String := "%s"
+def resolver : String := "%s"
+end Frugal.Skeleton
+""" % (sk["decoderSkeleton"], sk["encoderSkeleton"], sk["resolverSkeleton"])
+open(os.path.join(V, "lean/Frugal/Skeleton.lean"), "w").write(SK)
+print("wrote Skeleton.lean")
